@@ -5,6 +5,8 @@ import contracts.binpacking  # noqa: F401
 import contracts.tsp  # noqa: F401
 import contracts.qap  # noqa: F401
 import contracts.objectives  # noqa: F401
+import contracts.ttp  # noqa: F401
+import bounded.ttp_errors  # noqa: E402
 import bounded.bl_reference  # noqa: E402
 import bounded.objectives_oracle  # noqa: E402
 
@@ -44,6 +46,21 @@ PLANS["C02"] = Plan(
                  "skyline value = integral of the skyline: bounded oracle only", "bounds clause rests on C03 (lower_bound_bins)"],
 )
 
+ER = "moptipyapps.ttp.errors"
+PLANS["C07"] = Plan(
+    "C07", "other",
+    functions=[ER + ":count_errors"],
+    lemmas=["tri_bound"],
+    bounded=[bounded.ttp_errors.harness],
+    explanation="proved on count_errors: every array access in range for every plan with entries in -n..n (self-play included), "
+                "scratch arrays written before read (no dependence on earlier evaluations), stores within the scratch dtype, "
+                "result >= 0, result == 0 implies every team plays every day and all entries are mutually consistent. "
+                "bounded (exhaustive): zero-iff-feasible and value == documented per-rule count against a statement-derived "
+                "executable specification over ALL 12^6 consistent 4-team plans x constraint settings, plus random plans",
+    assumptions=["the error counter is treated as a mathematical integer (no int64 overflow obligation: a bound needs "
+                 "n*D*limits, stated as assumption)", "E1 for the scratch dtype chosen in Errors.__init__"],
+)
+
 PLANS["C14"] = Plan(
     "C14", "proof",
     functions=[E1 + ":__move_down", E1 + ":__move_left", E1 + ":_decode",
@@ -81,6 +98,13 @@ PLANS["C05"] = Plan(
 
 
 META = {
+    "C07": {"text": "count_errors proved memory-safe, stateless w.r.t. its scratch arrays, non-negative, and zero only for plans "
+                    "in which every team plays every day consistently (all plans, all sizes); the full 'zero iff feasible' and "
+                    "the per-rule count are decided exhaustively for all 12^6 four-team plans x constraint settings against an "
+                    "executable specification written from the statement; declared upper bound: known finding F4",
+            "note": "level 'other': proof for the clauses a contract can carry + exhaustive bounded enumeration for the "
+                    "combinatorial clauses; integer counter treated as mathematical",
+            "technique": "contract-based deductive verification + exhaustive bounded enumeration (12^6 plans) vs executable spec"},
     "C02": {"text": "four of the six njit objective kernels proved equal to recursive spec functions (bins, item count, covered "
                     "area; least filled bin as attained minimum) for arbitrary row order; skyline kernels proved safe, "
                     "overflow-free, terminating and within range; the documented skyline value, the declared bounds, "
